@@ -1390,6 +1390,15 @@ Proof.
       apply filter_In in H. tauto.
 Qed.
 
+(* S26, before the fix: a window cut short at the scan bound drops messages the full replay selects *)
+Lemma window_cap_refuted :
+  valid_log count_all_log = true /\ wf_refs count_all_log = true /\ cut_point count_all_log 40 = Some 40
+  /\ users (Some (compile_with code16 no_texts (mr_window_capped 16 12 count_all_log 40) (filter is_ckpt count_all_log) 40 40))
+     = map N.of_nat (seq 29 12)
+  /\ users (compile code16 no_texts count_all_log 40) = map N.of_nat (seq 25 16)
+  /\ mr_window_capped 16 16 count_all_log 40 = mr_window 16 count_all_log 40.
+Proof. conjs; vm_compute; reflexivity. Qed.
+
 (* both producers on the example thread: the 17-message tail is accepted, a 10-frame tail is not; the window holds
    exactly 16 messages *)
 Lemma producers_example :
